@@ -3,7 +3,12 @@
 package tars
 
 import (
-	"time"
+	"fmt"
+
+	vm__ "verif/vm"
+	time "verif/vm/vtime"
+	"github.com/TarsCloud/TarsGo/tars/protocol/res/endpointf"
+	"github.com/TarsCloud/TarsGo/tars/util/endpoint"
 
 	"github.com/TarsCloud/TarsGo/tars/registry"
 	"github.com/TarsCloud/TarsGo/tars/transport"
@@ -130,4 +135,72 @@ func VerifClients(s *ServantProxy) []*transport.TarsClient {
 		})
 	}
 	return out
+}
+
+// VerifEpState is what the failover oracle and the canonical state key read
+// about one registry endpoint.
+type VerifEpState struct {
+	Port         int32
+	HasAdapter   bool
+	Status       bool
+	Closed       bool
+	InActive     bool // member of the active (rotation) list
+	InProbeList  bool
+	ConnClosed   bool
+	LastFail     int32
+	Fail         int32
+	Send         int32
+	SinceSuccess int64 // seconds; -1: never
+	SinceBlock   int64
+	SinceCheck   int64
+}
+
+// VerifEndpointStates lists the registry's active endpoints ordered by port.
+func VerifEndpointStates(s *ServantProxy) (out []VerifEpState, probeQueue int, cursor string) {
+	em, ok := s.manager.(*endpointManager)
+	if !ok {
+		return nil, 0, ""
+	}
+	now := time.Now().Unix()
+	em.epLock.Lock()
+	active := map[string]bool{}
+	for _, ep := range em.activeEp {
+		active[ep.Key] = true
+	}
+	epfs := append([]endpointf.EndpointF{}, em.activeEpf...)
+	rr := em.activeEpRoundRobin
+	em.epLock.Unlock()
+	for _, ef := range epfs {
+		ep := endpoint.Tars2endpoint(ef)
+		st := VerifEpState{Port: ef.Port, InActive: active[ep.Key], SinceSuccess: -1}
+		if v, ok := em.epList.Load(ep.Key); ok {
+			a := v.(*AdapterProxy)
+			st.HasAdapter, st.Status, st.Closed = true, a.status, a.closed
+			st.LastFail, st.Fail, st.Send = a.lastFailCount, a.failCount, a.sendCount
+			if a.lastSuccessTime != 0 {
+				st.SinceSuccess = now - a.lastSuccessTime
+			}
+			st.SinceBlock, st.SinceCheck = now-a.lastBlockTime, now-a.lastCheckTime
+			st.ConnClosed = transport.VerifClientState(a.tarsClient).IsClosed
+		}
+		if _, ok := em.checkAdapterList.Load(ep.Key); ok {
+			st.InProbeList = true
+		}
+		out = append(out, st)
+	}
+	for i := 1; i < len(out); i++ {
+		for j := i; j > 0 && out[j].Port < out[j-1].Port; j-- {
+			out[j], out[j-1] = out[j-1], out[j]
+		}
+	}
+	if rr != nil {
+		rs := rr.VerifState()
+		if n := len(rs.Endpoints); n > 0 {
+			cursor = fmt.Sprintf("%d/%d:", rs.Pos%uint64(n), n)
+			for _, e := range rs.Endpoints {
+				cursor += fmt.Sprintf("%d,", e.Port)
+			}
+		}
+	}
+	return out, vm__.Len(em.checkAdapter), cursor
 }
